@@ -1,6 +1,6 @@
 (* C02 — Port sizes follow the wires. *)
 From Coq Require Import List String QArith.
-From Bq Require Import Expr ExprFacts RepModel Routine Compare Compile CompileFacts CompileTop StructureFacts WireFacts.
+From Bq Require Import Expr ExprFacts RepModel Routine Compare Compile CompileFacts CompileTop Preprocess StructureFacts WireFacts PortVarFacts.
 Import ListNotations.
 Open Scope string_scope.
 
@@ -79,6 +79,14 @@ Theorem C02_wire_ends_equal :
                      lookup q (ct_ports tc) = Some (d', v))).
 Proof. exact wire_ends_equal. Qed.
 Print Assumptions C02_wire_ends_equal.
+
+(* ... and preprocessing establishes the hypothesis of the last theorem: after introduce_port_variables every
+   input / through port of the routine it was applied to (every non-root routine) is declared as its own variable *)
+Theorem C02_preprocessing_makes_ports_variables : forall r r',
+  introduce_port_variables_node r = Ok r' ->
+  forall q, In q (rports r') -> p_dir q <> DOut -> p_size q = ESym (hash_name (p_name q)).
+Proof. exact ipv_ports_are_variables. Qed.
+Print Assumptions C02_preprocessing_makes_ports_variables.
 
 (* non-vacuity: a routine with a parent-to-child wire and a child-to-child wire (listed out of order) compiles,
    meets the hypotheses, and the sizes at the ends agree *)
